@@ -38,7 +38,7 @@ func init() {
 			return n
 		},
 		Run:          runC11,
-		Required:     []string{"w1_runs", "w2_runs", "w3_runs", "frames_decoded", "writecontrol_timeouts_observed", "histories_linearizable", "deadline_pairs_checked"},
+		Required:     []string{"w1_runs", "w2_runs", "w3_runs", "frames_decoded", "writecontrol_timeouts_observed", "histories_linearizable", "deadline_pairs_checked", "closes_while_the_writer_is_stalled"},
 		CaseTimeoutS: 300,
 		MaxWorkers:   8,
 		Assumptions: []string{
@@ -510,6 +510,29 @@ func c11W2(ctx *core.Ctx, out *core.Out) {
 			b.Close()
 			return
 		}
+	}
+	if ctx.Idx%60 == 8 || ctx.Idx%60 == 38 {
+		// Close may be called by any goroutine at any time: also while the writer is stalled
+		// inside the transport (with no write deadline set). It must come back.
+		cd := make(chan struct{})
+		go func() { ep.c.Close(); close(cd) }()
+		select {
+		case <-cd:
+			out.Count("closes_while_the_writer_is_stalled", 1)
+		case <-time.After(20 * time.Second):
+			fail("close-blocks-behind-stalled-writer", "Conn.Close() called while a writer is stalled inside the transport has not returned 20 s later", nil)
+			release()
+			a.Close()
+			b.Close()
+			return
+		}
+		release()
+		wgW.Wait()
+		a.Close()
+		b.Close()
+		wgR.Wait()
+		out.Eval(fmt.Sprintf("W2 close-while-stalled callers=%d server=%v", ncall, cfg.Server), true)
+		return
 	}
 	release()
 	wgW.Wait()
